@@ -219,7 +219,12 @@ def judge(ctx, sides, prop, hist, what):
             if x != y and relevant(prop, o):
                 return i
         return None
-    small = ctx.ddmin(hist, lambda ls: rel_diff(ls) is not None, keep_prefix=1) if len(hist) <= 400 else hist
+    ia0, _, _ = sides.run(hist)
+    if "hang" in ia0:
+        # a call that does not return costs a watchdog period per attempt: no minimisation, cut after it
+        small = hist[:ia0.index("hang") + 1]
+    else:
+        small = ctx.ddmin(hist, lambda ls: rel_diff(ls) is not None, keep_prefix=1) if len(hist) <= 400 else hist
     ia, mv, cls = sides.run(small + ([] if small[-1].startswith("classify") else ["classify 1"]), verbose=True)
     d = None
     for i, (o, x, y) in enumerate(zip(small, ia, mv)):
@@ -434,20 +439,6 @@ def replay_findings(ctx, sides, prop):
     for kf in ctx.known_findings():
         wit = ["reset"] + [l for l in kf.get("witness", []) if l.strip() and not l.startswith("#")]
         cid = kf.get("class", kf["id"])
-        if cid == "KF-C06-7":
-            # never returns: alone, under a short watchdog (the call is answered `hang` when it has not returned)
-            ia, mb, _ = sides.run(wit, watchdog=ctx.pick(5, 10))
-            if "hang" in ia[:-1]:
-                # an earlier, harmless line ran into the short watchdog (overloaded machine): once more, generously
-                ia, mb, _ = sides.run(wit, watchdog=30)
-            ctx.extra.setdefault("known_finding_witness", []).append(dict(id=kf["id"], impl=ia[-1]))
-            if ia[-1] == "hang" and ia[:-1] == mb[:-1]:
-                ctx.known(kf["id"], "copying a node onto itself through the cache does not return (watchdog): " + kf["observed"][:160])
-            else:
-                ctx.violation("impl-vs-model", "the witness of %s no longer behaves as recorded: the overlapping copy answered "
-                              "`%s` (recorded: never returns)" % (kf["id"], ia[-1]), lines=wit,
-                              annotations=["impl: " + ia[-1]], concrete=False)
-            continue
         ia, mv, cls = sides.run(wit, verbose=True)
         same = all(x == split_spec(y)[0] for x, y in zip(ia, mv))
         c = list(cls.values())[-1] if cls else dict(classes=[], c06=0, c07=0, first="-")
@@ -478,15 +469,29 @@ def replay_findings(ctx, sides, prop):
 def corpus(ctx, sides, prop):
     """corpus/<prop>/*.ops that are not finding witnesses (minimised past failures): Impl = Model"""
     concrete = False
+    # (the witnesses of repaired findings — known_findings.d `fixed` lines — stay here: the violation is reported
+    # again if a defect returns)
     wit = {f["id"].lower() for f in ctx.known_findings()}
     for f in sorted(glob.glob(os.path.join(lib.ROOT, "corpus", prop, "*.ops"))):
         if os.path.basename(f)[:-4] in wit:
             continue
         hist = ["reset"] + op_lines(f)
-        ia, mb, _ = sides.run(hist)
+        if not hist[-1].startswith("classify"):
+            hist.append("classify 1")
+        ia, mb, cls = sides.run(hist)
         ctx.evaluations += len(hist)
+        ctx.histogram["corpus:files"] += 1
         if any(x != y and relevant(prop, o) for o, x, y in zip(hist, ia, mb)):
             concrete |= judge(ctx, sides, prop, hist, "corpus " + os.path.basename(f))
+            continue
+        # a repaired finding's witness must also satisfy the specification (no deviation outside the classes)
+        key = "c06" if prop == "C06" else "c07"
+        for c in cls.values():
+            if c[key] and not classes_for(prop, c["classes"]):
+                ctx.violation("impl-vs-spec", "corpus %s: the model (= the implementation on this history) deviates from "
+                              "direct application (%s) outside every listed class of %s" % (os.path.basename(f), c["first"], prop),
+                              lines=hist, concrete=True)
+                concrete = True
     return concrete
 
 
